@@ -824,6 +824,14 @@ func drawC15(t *rapid.T) C15Case {
 			trainPool = append(trainPool, rapid.SampledFrom(look).Draw(t, "trainLookalike"))
 		}
 	}
+	// a training journal of realistic size: a hundred or more accounts, many of them used equally often
+	largeTraining := gen.Rare(t, "largeTraining", 5)
+	if largeTraining {
+		n := rapid.IntRange(66, 160).Draw(t, "nTrainAccounts")
+		for i := 0; i < n; i++ {
+			trainPool = append(trainPool, fmt.Sprintf("Expenses:Kat%03d", i))
+		}
+	}
 	nWords := rapid.IntRange(1, len(c15Words)).Draw(t, "nWords")
 	words := c15Words[:nWords]
 	nQ := rapid.IntRange(1, len(c15Qtys)).Draw(t, "nQtys")
@@ -899,7 +907,17 @@ func drawC15(t *rapid.T) C15Case {
 		if trainClass == "no-transactions" {
 			minTrain = 0
 		}
-		train = rapid.SliceOfN(trainDir, minTrain, 8).Draw(t, "train")
+		if largeTraining {
+			nt := rapid.IntRange(150, 400).Draw(t, "nTrainLarge")
+			train = rapid.SliceOfN(trainDir, nt, nt).Draw(t, "train")
+			// every account of the pool is used at least once (equal counts around any cut-off)
+			for i, a := range trainPool {
+				train = append(train, ref.Directive{Kind: ref.KTrx, Date: date(t), Desc: words[i%len(words)],
+					Bookings: []ref.Booking{{Credit: trainPool[0], Debit: a, Qty: qty(t), Com: com(t)}}})
+			}
+		} else {
+			train = rapid.SliceOfN(trainDir, minTrain, 8).Draw(t, "train")
+		}
 		// tie booster: a copy of one transaction with one account exchanged for another
 		if len(train) > 0 && rapid.IntRange(0, 2).Draw(t, "mirror") == 0 {
 			src := train[rapid.IntRange(0, len(train)-1).Draw(t, "mirrorOf")]
@@ -933,6 +951,9 @@ func drawC15(t *rapid.T) C15Case {
 			return other(t, tgtKinds, tgtPool, 4)
 		}
 		d := ref.Directive{Kind: ref.KTrx, Date: date(t), Desc: desc(t)}
+		if rapid.IntRange(0, 5).Draw(t, "unseenWords") == 0 {
+			d.Desc = rapid.SampledFrom([]string{"Neukunde", "Unbekannt 4711", "zzz"}).Draw(t, "unseen") // a payee the training data has never seen
+		}
 		nb := rapid.SampledFrom([]int{1, 1, 2, 3}).Draw(t, "nBookings")
 		for i := 0; i < nb; i++ {
 			b := ref.Booking{Credit: rapid.SampledFrom(tgtPool).Draw(t, "credit"), Debit: rapid.SampledFrom(tgtPool).Draw(t, "debit"), Qty: qty(t), Com: com(t)}
